@@ -4,7 +4,7 @@ from lib import histprops as P
 
 
 def gen(rng, tier):
-    n = 300 if tier == "quick" else 12000
+    n = 2000 if tier == "quick" else 40000
     return [G.gen_history(rng, "m%d" % i, profile="mixed", probe_p=0.2, gc_p=0.06) for i in range(n)]
 
 
